@@ -26,6 +26,8 @@ REQUIRE = {'lifecycles': 80, 'hook_observations': 180, 'faulted_shutdowns': 40, 
            'no_trace_lifecycles': 10, 'plugin_shutdown_faults': 15}
 SHARD_TIMEOUT = {'quick': 400, 'thorough': 2400}
 SEQS = [['start', 'shutdown'], ['start', 'start', 'shutdown'], ['start', 'shutdown', 'shutdown']]
+# 'swap_live': the application changes its own hooks while an agent with tracing disabled is running
+SEQS_LIVE = [['start', 'swap_live', 'shutdown'], ['start', 'swap_live', 'shutdown', 'start', 'shutdown']]
 SEQS_MORE = SEQS + [['start', 'shutdown', 'swap', 'start', 'shutdown'], ['start', 'shutdown', 'swap', 'start', 'shutdown']]
 
 
@@ -61,8 +63,11 @@ def gen_case(seed):
         faults = [f for f in faults if f not in ('send_fails', 'send_fails_during_flush', 'server_stopped')]
     if 'poll_slow' in faults and 'server_stopped' in faults:
         faults.remove('server_stopped')
-    return {'pre_sys': r.chance(0.5), 'pre_thr': r.chance(0.5), 'no_trace': r.chance(0.25), 'ops': r.pick(SEQS_MORE),
+    case = {'pre_sys': r.chance(0.5), 'pre_thr': r.chance(0.5), 'no_trace': r.chance(0.25), 'ops': r.pick(SEQS_MORE),
             'faults': faults, 'nplug': nplug}
+    if case['no_trace'] and r.chance(0.5):
+        case['ops'] = r.pick(SEQS_LIVE)
+    return case
 
 
 def judge(case, res, out, replay):
@@ -123,6 +128,12 @@ def judge(case, res, out, replay):
             if missing:
                 out.violation('shutdown:plugin-not-shut-down', 'after %s plugins %s were never shut down (faults %s)' % (
                     op, missing, case['faults']), witness, replay)
+                return False
+            if o.get('distinct_snapshot_ids') is not None and o['attempted'] > o['distinct_snapshot_ids']:
+                out.violation('delivery:sent-more-than-once', 'the service received %d send requests for %d distinct '
+                                                              'snapshots (faults %s): a snapshot is sent once, also when '
+                                                              'the send fails' % (o['attempted'], o['distinct_snapshot_ids'],
+                                                                                  case['faults']), witness, replay)
                 return False
             if o['accepted'] is not None and o['attempted'] < o['accepted']:
                 out.violation('shutdown:delivery-not-drained', 'shutdown returned with %d of %d accepted snapshots not '
@@ -271,10 +282,18 @@ def child_lifecycle(case):
         obs.append({'op': op, 'hooks': hooks(), 'timers': timers_now, 'polls_after_shutdown': growth,
                     'started': bool(agent.started),
                     'plugin_shutdowns': ps, 'accepted': accepted[0] if op.startswith('shutdown') else None,
-                    'attempted': len(srv.snapshots)})
+                    'attempted': len(srv.snapshots),
+                    'distinct_snapshot_ids': len({bytes(rec[0].ID) for rec in srv.snapshots})})
 
     try:
         for op in case['ops']:
+            if op == 'swap_live':
+                # tracing is disabled by configuration: the hooks are the application's own business, also while the
+                # agent runs
+                sys.settrace(pre_sys2 if not case['pre_sys'] else None)
+                threading.settrace(pre_thr2)
+                obs.append({'op': 'swap', 'hooks': hooks()})
+                continue
             if op == 'swap':
                 # while the agent is shut down the application installs other hooks (or removes them)
                 sys.settrace(pre_sys2 if case['pre_thr'] else None)
